@@ -33,6 +33,7 @@ impl ArcWake for WakeQueue {
                 other_state                     => queue_core.state = other_state
             }
         }
+        #[cfg(desync_verif)] super::verif_hooks::point("wake_queue:after_unlock");
 
         // Cause the core to reschedule its events
         core.reschedule_queue(queue, Arc::clone(core));
